@@ -228,6 +228,18 @@ def eval_C19(item):
             want = [row_ids[r] for r in rows] or [None]
             if ids != want or v.hub.select_subtree[slot]:
                 res['pred'].append('lasso around rows %r selected %r (subtree=%s), expected %r without subtree' % (rows, ids, v.hub.select_subtree[slot], want))
+        # highlighted scatter points are those of the selected structure(s) (with descendants for a subtree selection)
+        if len(set(zip(cat['x_cen'], cat['y_cen']))) == len(row_ids):
+            sel_ids = [s_ for s_ in ids if s_ is not None]
+            if sel_ids:
+                want_ids = sorted(set(structs[sel_ids[0]]['desc'] + [sel_ids[0]])) if v.hub.select_subtree[slot] else sorted(set(sel_ids))
+                got_rows = []
+                if slot in sc.lines2d and sc.lines2d[slot] is not None:
+                    for x_, y_ in zip(np.asarray(sc.lines2d[slot].get_xdata(), dtype=float), np.asarray(sc.lines2d[slot].get_ydata(), dtype=float)):
+                        hit = [r_ for r_ in range(len(row_ids)) if float(cat['x_cen'][r_]) == x_ and float(cat['y_cen'][r_]) == y_]
+                        got_rows.append(row_ids[hit[0]] if hit else -1)
+                if sorted(got_rows) != want_ids:
+                    res['pred'].append('highlighted scatter points belong to structures %r, selection (slot %d) is %r' % (sorted(got_rows), slot, want_ids))
         # notification: every registered callback exactly once, with the slot
         new = calls[n_before:]
         n_before = len(calls)
